@@ -5,6 +5,8 @@ PROP = "C12"
 SPEC = "Bng.Spec.C12"
 COMPS = [
     V.Component("dist", monitors=["store-agree", "restart", "remote", "unique", "reverse", "roundtrip"]),
+    # PoolAllocator (store.go) over a fault-injecting MemoryAllocationStore shared with other pools
+    V.Component("poolalloc", monitors=["store-agree", "reverse", "unique", "count"]),
 ]
 LEVEL = ("Session mode (bitmap allocator): store/memory agreement under every store-failure vector, restart from the store "
          "for every enumeration order (prefixes preserved, uniqueness), and application of remote puts are theorems over "
@@ -16,10 +18,10 @@ LEVEL = ("Session mode (bitmap allocator): store/memory agreement under every st
 ASSUME = [
     "each DistributedAllocator method is one atomic step (da.mu held); every operation performs at most one store write, after its in-memory step, so a stop after every store operation is a restart between operations (the multi-delete store cleanup of an epoch tick is not split)",
     "the store is a plain key-value map: a successful Put/Delete is durable and visible to the next Query; a failing call changes nothing; Query returns every key (any order); its failure at Start is not explored",
-    "histories are 'admissible': a remote put announces a prefix of the pool that is free or already the subscriber's (an announcement colliding with another holder makes the shared store itself inconsistent and is excused by the monitor for the subscribers involved)",
+    "histories are admissible: a remote put announces a prefix of the pool that is free or already the subscriber's; the complement is the recorded finding KF-dist-remote-collision (its verdicts are emitted and attributed to it while the collision lasts)",
     "announced prefixes are masked to their length (net.ParseCIDR); malformed JSON/CIDR records are ignored by the code and not generated",
     "bitmap geometries with fewer than 2^64 units (GoodCfg)",
-    "PoolAllocator/MemoryAllocationStore (store.go) and modes.go wrappers are not modelled; PoolAllocator.AllocateWithOptions has the same rollback pattern as D21 and was not changed",
+    "PoolAllocator (store.go) is modelled over the bitmap model with the store's records and the by-IP conflict index as a set of foreign prefixes; MemoryAllocationStore's Marshal/Unmarshal is exercised by the harness (rtstore) and modelled as the identity; modes.go (LocalAllocator/HybridAllocator, thin maps of pool id to PoolAllocator) is not modelled",
 ]
 
 
